@@ -30,7 +30,8 @@ Ev == C.ops[j + 1]
 TDump == /\ Ev.op = "dump"
          /\ stream' = Append(stream, [id |-> Ev.obj, size |-> Ev.size]) /\ last' = [kind |-> "dump", obj |-> Ev.obj]
          /\ UNCHANGED <<rpos, bpos>>
-         /\ bad' = bad \cup (IF Ev.wpos # SumSize(stream') THEN {"write_position"} ELSE {})
+         /\ bad' = bad \cup (IF Ev.closed = 1 THEN {"dump_closed_the_callers_stream"}
+                               ELSE IF Ev.wpos # SumSize(stream') THEN {"write_position"} ELSE {})
 TLoad == /\ Ev.op = "load"
          /\ IF rpos < Len(stream)
             THEN /\ LoadOk
